@@ -21,6 +21,7 @@ type Evidence struct {
 	ColdRuns    int
 	Batches     int
 	Steps       uint64
+	SimS        float64
 	Switches    uint64
 	Inflight    uint64
 	Ops         int
@@ -106,6 +107,7 @@ func (e *Evidence) addBatch(r *BatchResult) {
 			e.ColdRuns++
 		}
 		e.Steps += d.Steps
+		e.SimS += d.SimS
 		e.Switches += d.Switches
 		e.Inflight += d.Inflight
 		e.Ops += d.Ops
@@ -234,6 +236,12 @@ func describeSpec(s *RunSpec) map[string]interface{} {
 	strat := []string{"random", "pct", "rr", "global", "stall", "seq", "replay"}
 	gran := []string{"stmt", "func", "op"}
 	sched := fmt.Sprintf("strategy=%s granularity=%s p=1/%d q=%d first=task %d gc_rate=%d prng=%d", strat[s.Sched.Strat%len(strat)], gran[s.Sched.Gran%len(gran)], s.Sched.P, s.Sched.Q, s.Sched.First, s.Sched.GCRate, s.Sched.Seed)
+	if s.Sched.ClockRate > 0 {
+		sched += fmt.Sprintf(" clock=jumps forward every ~%d yields (1 ms .. 31 days)", s.Sched.ClockRate)
+	}
+	if s.Sched.StallHot {
+		sched += fmt.Sprintf(" stall=in front of shared-state statements, up to %d times", s.Sched.StallMax)
+	}
 	return map[string]interface{}{"mode": s.Mode, "cold": s.Cold, "reference_pass_before": s.PreRef, "objects": objs, "programs": tasks, "scheduler": sched,
 		"planned_transport_faults": s.Plan}
 }
@@ -313,7 +321,7 @@ func (e *Evidence) write(path string) error {
 			"race_reports_confined_to_load_ops":                          e.LoadRaces,
 			"probe_mismatches_load_ops":                                  e.ProbeN,
 			"probe_examples":                                             e.probeEx,
-			"simulated_time":                                             "n/a (no clock, timer or deadline exists in the system under test; progress is counted in logical steps)",
+			"simulated_time":                                             e.simulatedTime(),
 			"components_real":                                            []string{"every non-test source file of github.com/pion/rtcp from the working tree (yield call inserted before each statement)", "Go runtime", "fmt/reflect/encoding/binary", "Go race detector (race build)"},
 			"components_stub":                                            []string{"seeded scheduler (token hand-off invisible to the race detector)", "transport and mailboxes (drop/duplicate/delay/reorder/corrupt)", "caller roles: producers, receivers, consumers, private-history tasks"},
 			"components_absent":                                          []string{"clock/timers", "disk", "sockets (the library has none)"},
@@ -377,4 +385,13 @@ func showCmd(path string) int {
 		fmt.Println(rf.RaceReport)
 	}
 	return 0
+}
+
+// simulatedTime describes the simulated time covered (trees that read the clock) or says why there is none.
+func (e *Evidence) simulatedTime() string {
+	if e.build == nil || e.build.Desc == nil || e.build.Desc.ClockReads == 0 {
+		return "n/a (no clock, timer or deadline exists in the system under test; progress is counted in logical steps)"
+	}
+	return fmt.Sprintf("%.0f simulated seconds over all runs (%d clock expressions of the tree read the simulated clock: a microsecond per yield plus seeded forward jumps of 1 ms .. 31 days; timers left on the real clock: %v)",
+		e.SimS, e.build.Desc.ClockReads, e.build.Desc.Timers)
 }
